@@ -2,5 +2,6 @@ SPECIFICATION Spec
 INVARIANT TenCharacters
 INVARIANT DecodingTotal
 INVARIANT NearMissInvalid
+INVARIANT OverAlphabet
 INVARIANT GroupNameInjective
 CHECK_DEADLOCK FALSE
